@@ -220,6 +220,17 @@ func init() {
 			for _, s := range segs {
 				l.B(s)
 			}
+			// a Send that failed (the transport refused the write, nothing went out) must leave nothing behind
+			// that a later Send on the same connection would transmit
+			prefail := g0.Chance(1, 3)
+			if prefail {
+				conn.setWriteLimit(0)
+				func() {
+					defer func() { recover() }()
+					c.Send(ctx, "org.example.a.Failed", json.RawMessage(`{"stale":true}`), 0)
+				}()
+				conn.setWriteLimit(-1)
+			}
 			var sendClass string
 			var receive func(context.Context, interface{}) (uint64, error)
 			func() {
@@ -247,7 +258,7 @@ func init() {
 			// pipelined use: further calls are sent between the receives of the first one; what the reader has
 			// already buffered belongs to the receives still to come and must not be touched by a Send
 			pipelined := g0.Chance(1, 2)
-			l.N(nrecv).Bool(pipelined).S("|").S(sendClass).B(conn.Written())
+			l.N(nrecv).Bool(pipelined).Bool(prefail).S("|").S(sendClass).B(conn.Written())
 			var obs []recvObs
 			if sendClass == "ok" {
 				for k := 0; k < nrecv; k++ {
